@@ -769,6 +769,18 @@ func (env *SpecEnv) call(c *ast.CallExpr) Val {
 			return boolVal(tEq(x.Tag, fc.tagOf(tt)))
 		case "implies":
 			return boolVal(tImp(env.expr(c.Args[0]).S, env.expr(c.Args[1]).S))
+		case "calls": // calls(F): how many calls of the callee named F the function's own body has made so far (0 in old())
+			id2, ok := c.Args[0].(*ast.Ident)
+			if !ok || len(c.Args) != 1 {
+				env.fail("calls(F) takes a callee name")
+			}
+			if env.inOld || env.st == nil || env.st.calls == nil {
+				return intVal(types.Typ[types.Int], "0")
+			}
+			if t, ok := env.st.calls[id2.Name]; ok {
+				return intVal(types.Typ[types.Int], t)
+			}
+			return intVal(types.Typ[types.Int], "0")
 		case "ite":
 			cnd, a, b := env.expr(c.Args[0]), env.expr(c.Args[1]), env.expr(c.Args[2])
 			return fc.mergeVal(cnd.S, a, b)
